@@ -13,13 +13,9 @@ def route(case):
 
 
 
-# repaired = every fix patch applied.  The two others are the open findings of /repo HEAD (each applies to its own
-# case kinds only, so any combination of the two patches matches one of the variants case by case):
-#   restore_unfixed: Restore() leaves restartCount at 0        (fixes/C05_restore_restart_counter.patch)
-#   late_unfixed:    a late timer callback still runs Timeout() (fixes/C05_late_timer_fire.patch)
-# The driver still knows the legacy variants defective / cells_unfixed / ncp_unfixed (fsm.go before d6fc4b1 /
-# 488e192); they are no longer tried, so a regression to them is a VIOLATION.
-VARIANTS = ["repaired", "restore_unfixed", "late_unfixed"]
+# Every finding of this property is fixed in /repo (d6fc4b1, 488e192, fe05ccf, bbcb995): the model has one variant,
+# what /repo HEAD does; a regression to any of the old defects is a VIOLATION.
+VARIANTS = ["repaired"]
 RULE = ("One case = one whole event history applied to a fresh FSM (kinds fsm / ncp: mock option handler whose answer "
         "class good/nak/rej/both/malformed is chosen per Configure-Request, protocol LCP / IPCP; kinds lcp/ipcp/ipv6cp: "
         "the real handlers with payloads of known class), restart timer fired only by the explicit T event. Exhaustive part: ~30 canonical "
@@ -330,25 +326,6 @@ def cell_at(case, line, i):
     s = steps(line)
     pre = INIT if i == 0 else s[i - 1]
     return STATES[pre[0]], rfc_class(ops[i], pre, t[0]), ops[i]
-
-
-def signature(case, impl, models):
-    """the table cell at which the repaired model and the variant the implementation follows first part"""
-    v = next((v for v in VARIANTS[1:] if models.get(v) == impl), None)
-    if v is None:
-        return None
-    i = first_diff(models["repaired"], models[v])
-    if i is None:
-        return None
-    st, cl, op = cell_at(case, models["repaired"], i)
-    kind = case.split()[0]
-    if v == "restore_unfixed":
-        return "restore-restart-counter"
-    if v == "late_unfixed":
-        return "late-timer-fire"
-    if op[0] == "I" and "||" not in op and kind not in ("fsm", "lcp") and 8 <= int(op[1:].split(".")[0]) <= 11:
-        return "ncp-code%s" % op[1:].split(".")[0]
-    return "cell-%s-%s" % (st, cl)
 
 
 def classify(case, impl, model):
